@@ -279,9 +279,13 @@ Proof. vm_compute. reflexivity. Qed.
 Example ex_accepted_reals : exists rg, from_min_max (f64_of_Z 0) (f64_of_Z 255) = Ok rg
   /\ B2R64 (f64_of_Z 0) < B2R64 (f64_of_Z 255) /\ f64_is_finite (rg_range rg) = true /\ accepted rg.
 Proof.
-  destruct (from_min_max (f64_of_Z 0) (f64_of_Z 255)) as [rg| |] eqn:E; try (vm_compute in E; discriminate).
-  exists rg. split; [reflexivity|]. split; [apply f64_lt_true; reflexivity|]. split.
-  - destruct (from_min_max_ok _ _ _ E) as (_ & _ & _ & ->). reflexivity.
+  assert (F0 : fin64 (f64_of_Z 0) = true) by (vm_compute; reflexivity).
+  assert (F1 : fin64 (f64_of_Z 255) = true) by (vm_compute; reflexivity).
+  assert (Lt : B2R64 (f64_of_Z 0) < B2R64 (f64_of_Z 255)).
+  { apply f64_lt_true; [exact F0|exact F1|vm_compute; reflexivity]. }
+  pose proof (from_min_max_intro _ _ F0 F1 (Rlt_le _ _ Lt)) as E.
+  eexists. split; [exact E|]. split; [exact Lt|]. split.
+  - cbn [rg_range]. vm_compute. reflexivity.
   - eexists; eexists; exact E.
 Qed.
 (** rejected ranges *)
